@@ -161,12 +161,14 @@ SPECS = [
          plan=plan_hist,
          floor={"min_evaluations": 100000, "min_distinct": 150,
                 "classes": ["encryption_information_sent", "central_identification_sent", "poll_unencrypted_keys_pending",
-                            "poll_encrypted_never_armed", "poll_unencrypted", "poll_encrypted_nothing_pending_or_sent"]},
+                            "poll_encrypted_never_armed", "poll_unencrypted", "poll_encrypted_nothing_pending_or_sent",
+                            "poll_single_pdu", "poll_unencrypted_between_ltk_and_ediv_rand"]},
          assumptions=ASSUME_COMMON + [
-             "encryption is switched with is_encrypted(bool) on the connection data at arbitrary points (also without a key)",
+             "encryption is switched with is_encrypted(bool) on the connection data at arbitrary points (also without a key), also between the "
+             "two key distribution PDUs (single-PDU polls stand for a link layer with one free transmit buffer)",
              "uninitialised pending flags: not applicable to how link_layer creates connection data (value-initialisation of a class "
              "without user-provided constructor zero-initialises); the harness constructs the data the same way; no valgrind run"],
-         design_ref="4/C34", technique="trace checker over key distribution PDUs with encryption flips and polls at random positions"),
+         design_ref="4/C34", technique="trace checker over key distribution PDUs with encryption flips and (full or single-PDU) polls at random positions"),
     Spec("C35", "exploration",
          rule=WORKLOAD + "After every action local_device_pairing_status() is compared with the classification of the exchange the "
               "initiator actually drove: nothing completed -> no_key; legacy TK = 0 -> unauthenticated; legacy passkey / OOB TK that "
